@@ -81,3 +81,39 @@ func verifHarness_C07_history(k int) {
 	}
 	verifReach("C07/H")
 }
+
+// F: a frame that is not authenticated (wrong signature) never moves the remembered newest timestamp,
+// whatever timestamp it carries; the next correctly signed frame is judged against the unchanged state.
+func verifHarness_C07_forged(n int) {
+	cur := verifNondetU64()
+	verifAssume(cur < 1<<48)
+	key := verifNondetKey()
+	compat, seq, sys, comp := verifNondetU8(), verifNondetU8(), verifNondetU8(), verifNondetU8()
+	id := verifNondetU32()
+	verifAssume(id < 1<<24)
+	ck := verifNondetU16()
+	link := verifNondetU8()
+	fts := verifNondetU64()
+	verifAssume(fts < 1<<48)
+	payload := verifNondetBytes(n)
+	f := V2Frame{IncompatibilityFlag: 1, CompatibilityFlag: compat, SequenceNumber: seq, SystemID: sys, ComponentID: comp,
+		Message: &message.MessageRaw{ID: id, Payload: payload}, Checksum: ck, SignatureLinkID: link, SignatureTimestamp: fts}
+	good := f.GenerateSignature(key)
+	forged := verifNondetBytes(6)
+	verifAssume(verifNot(verifEqBytes(forged, good[:])))
+	wire := verifSpecV2(1, compat, seq, sys, comp, id, payload, ck, true, link, fts, forged)
+	// followed by a correctly signed frame
+	ts := verifNondetU64()
+	verifAssume(ts < 1<<48)
+	wire = append(wire, verifSignedWire(key, 1, ts)...)
+	rd := &Reader{ByteReader: &verifChunkReader{data: wire}, InKey: key}
+	verifAssert(rd.Initialize() == nil, "C07/F/init")
+	rd.curReadSignatureTime = cur
+	fr, err := rd.Read()
+	verifAssert(err != nil && fr == nil, "C07/F/forged-frame-refused")
+	verifAssert(rd.curReadSignatureTime == cur, "C07/F/forged-frame-leaves-window-state-unchanged")
+	_, err = rd.Read()
+	refuse := verifAnd(cur > 0, ts+1000000 < cur)
+	verifAssert(verifIff(err != nil, refuse), "C07/F/next-frame-judged-against-unchanged-state")
+	verifReach("C07/F")
+}
